@@ -298,6 +298,11 @@ func (x *Exec) scalar(v Value, t types.Type) *smt.Term {
 		if v.Ref != nil && len(v.Path) == 0 && v.Key == "" {
 			return v.Ref
 		}
+		if v.Ref != nil && len(v.Path) == 0 && v.SubIdx == nil && v.View == nil && v.Key != "" {
+			// the address of a field of a heap object, handed to a function that is only specified:
+			// an uninterpreted function of the object (one per field)
+			return x.B.UF("fieldaddr_"+sanitize(v.Key), RefS, v.Ref)
+		}
 		unsupported("address %s used as a first-class value", v)
 	case *Struct:
 		unsupported("composite value where a scalar was expected (%d fields)", len(v.Fields))
